@@ -117,6 +117,11 @@ def server_case(session, item, offset, trickle):
                             except Exception:
                                 return
                         return
+                    if trickle == 'joined' and i == item - 1 and offset:
+                        # the complete line and the beginning of the next one arrive in ONE segment, then silence
+                        state['sock'].sendall(line + spec['lines'][item][:offset])
+                        rec['stall'] = ('joined', w.now)
+                        return
                     state['sock'].sendall(line)
                     # the session runs in lock step: let the server answer before the next line
                     for _ in range(20):
@@ -150,10 +155,12 @@ def judge_server(case):
     spec = SESSIONS[session]
     what = 'handshake' if (item < len(spec['lines']) and spec['lines'][item] == 'TLS') else ('line %r +%d' % (spec['lines'][item], offset) if item < len(spec['lines']) else 'end')
     desc = 'session %s stalled at %s (%s): handler ended at %r (exc %r), replies %r' % (
-        session, what, 'silent' if trickle is None else 'trickle every %gs' % trickle, rec['end'], rec['handler_exc'],
+        session, what, 'silent' if trickle is None else ('pipelined with the previous line, then silent' if trickle == 'joined' else 'trickle every %gs' % trickle), rec['end'], rec['handler_exc'],
         [(t, l[:20]) for t, l in rec['replies'][-3:]])
     deadline, scope = server_deadline(session, item, offset, trickle, rec)
-    complete = trickle is not None and item < len(spec['lines']) and spec['lines'][item] != 'TLS' and \
+    if trickle == 'joined':
+        trickle_n = None
+    complete = trickle not in (None, 'joined') and item < len(spec['lines']) and spec['lines'][item] != 'TLS' and \
         (len(spec['lines'][item]) - offset) * trickle < deadline
     if rec['handler_alive'] or rec['end'] is None:
         starttls_line = item < len(spec['lines']) and spec['lines'][item] == b'STARTTLS\r\n'
@@ -185,6 +192,9 @@ def server_cases(tier):
             offsets = range(0, len(line)) if (tier == 'thorough' or len(line) < 12) else [0, 1, len(line) // 2, len(line) - 2, len(line) - 1]
             for off in offsets:
                 yield (session, item, off, None)
+                if off and item > 0 and isinstance(spec['lines'][item - 1], bytes) and spec['lines'][item - 1] != b'DATA\r\n' \
+                        and not (item > 1 and spec['lines'][item - 2] == b'DATA\r\n') and spec['lines'][item - 1] != b'STARTTLS\r\n':
+                    yield (session, item, off, 'joined')
                 prev = spec['lines'][item - 1] if item else None
                 t = 0.9 * (TD if prev == b'DATA\r\n' else TC)
                 yield (session, item, off, t)
@@ -216,6 +226,9 @@ def judge_relay(cfg, stage, how):
     if stage == 'connect':
         c['connect'] = 'stall'
         script = {}
+    elif stage == 'unsolicited':
+        c['unsolicited_partial'] = c['unsolicited_partial'].encode() if isinstance(c['unsolicited_partial'], str) else c['unsolicited_partial']
+        script = {}
     else:
         scope = 13.0 if stage.startswith('eod') else 11.0
         script = {stage: 'stall' if how == 'stall' else ('trickle', 0.9 * scope)}
@@ -237,6 +250,11 @@ def judge_relay(cfg, stage, how):
     else:
         limit = 11.0
     if stage in ('quit', 'rset') and whole in ('mapping',) and rec['end'] is not None and rec['end'] <= limit + 1e-6:
+        return out
+    if stage == 'unsolicited':
+        limit = 11.0
+    if w.horizon_hit and rec['end'] is None:
+        out.append((dict(base, kind='attempt-never-returned', stage=stage.rstrip('0123456789'), how='reconnects for ever'), desc + ' (%d connections)' % len(w.peers)))
         return out
     if whole == 'blocked' or rec['end'] is None:
         out.append((dict(base, kind='attempt-never-returned', stage=stage.rstrip('0123456789'), how=how), desc))
@@ -269,6 +287,8 @@ def relay_cases(tier):
                 yield cfg, st, 'trickle'
         if cfg.get('auth'):
             yield cfg, 'auth', 'stall-after-334'
+    for lmtp in (False, True):
+        yield dict(lmtp=lmtp, n=1, unsolicited_partial='421 4.4.2 idl', idle_timeout=5.0, max_steps=400), 'unsolicited', 'stall'
 
 
 # ------------------------------------------------------------------ pipe / http
